@@ -62,7 +62,7 @@ theorem step_insert {s : Sess} (ok : SessOk s) (i : Nat) (e : Elt) :
       -- the persistent side
       have e2 : ((Handle.toTree s.w hd).insert e).1 =
           ⟨hd.t, (insertRoot hd.t hd.inOrder (absN s.w.heap h hd.root) e).1,
-            if old.isNone then hd.size + 1 else hd.size, hd.immutable, hd.inOrder, hd.collapseAlways⟩ := by
+            if old.isNone then hd.size + 1 else hd.size, hd.immutable, hd.inOrder, hd.collapseAlways, hd.collapseOnError⟩ := by
         simp only [Tree.insert, Handle.toTree, hm, Bool.false_eq_true, if_false, htr, hold]
       rw [e2]
       have hsz : (if old.isNone = true then hd.size + 1 else hd.size) =
@@ -71,8 +71,8 @@ theorem step_insert {s : Sess} (ok : SessOk s) (i : Nat) (e : Elt) :
         exact size_insert t3.sorted t5
       exact step_mut (hd' := { hd with root := r, size := if old.isNone then hd.size + 1 else hd.size })
         (tr' := ⟨hd.t, (insertRoot hd.t hd.inOrder (absN s.w.heap h hd.root) e).1,
-            if old.isNone then hd.size + 1 else hd.size, hd.immutable, hd.inOrder, hd.collapseAlways⟩)
-        ok hi hm t1 u ⟨rfl, rfl, rfl, rfl, rfl⟩ ⟨p1, p4, hsz⟩ rfl
+            if old.isNone then hd.size + 1 else hd.size, hd.immutable, hd.inOrder, hd.collapseAlways, hd.collapseOnError⟩)
+        ok hi hm t1 u ⟨rfl, rfl, rfl, rfl, rfl, rfl⟩ ⟨p1, p4, hsz⟩ rfl
 
 /-! ## `_delete` -/
 
@@ -122,7 +122,7 @@ theorem step_delete {s : Sess} (ok : SessOk s) (i : Nat) (k : Nat) :
       have e2 : ((Handle.toTree s.w hd).delete k none).1 =
           ⟨hd.t, (deleteRoot true hd.t (absN s.w.heap h hd.root) k none).1,
             if (lookup (flat (absN s.w.heap h hd.root)) k).isSome then hd.size - 1 else hd.size,
-            hd.immutable, hd.inOrder, hd.collapseAlways⟩ := by
+            hd.immutable, hd.inOrder, hd.collapseAlways, hd.collapseOnError⟩ := by
         have hx : deleteRoot true hd.t (absN s.w.heap h hd.root) k none =
             ((deleteRoot true hd.t (absN s.w.heap h hd.root) k none).1, .ok (lookup (flat (absN s.w.heap h hd.root)) k)) := by
           rw [← p4]
@@ -137,7 +137,7 @@ theorem step_delete {s : Sess} (ok : SessOk s) (i : Nat) (k : Nat) :
         (hd' := { hd with root := r, size := if (lookup (flat (absN s.w.heap h hd.root)) k).isSome then hd.size - 1 else hd.size })
         (tr' := ⟨hd.t, (deleteRoot true hd.t (absN s.w.heap h hd.root) k none).1,
             if (lookup (flat (absN s.w.heap h hd.root)) k).isSome then hd.size - 1 else hd.size,
-            hd.immutable, hd.inOrder, hd.collapseAlways⟩)
-        ok hi hm t1 u ⟨rfl, rfl, rfl, rfl, rfl⟩ ⟨p1, p2, hsz⟩ rfl
+            hd.immutable, hd.inOrder, hd.collapseAlways, hd.collapseOnError⟩)
+        ok hi hm t1 u ⟨rfl, rfl, rfl, rfl, rfl, rfl⟩ ⟨p1, p2, hsz⟩ rfl
 
 end Model.BTreeCow
